@@ -141,7 +141,9 @@ public:
             copy_pixels(img._view,_view);
         else
         {
-            image tmp(img);
+            // allocate with our own allocator, which the assignment does not replace
+            image tmp(img.dimensions(), img._align_in_bytes, _alloc);
+            copy_pixels(img._view, tmp._view);
             swap(tmp);
         }
         return *this;
@@ -154,7 +156,9 @@ public:
             copy_pixels(img._view,_view);
         else
         {
-            image tmp(img);
+            // allocate with our own allocator, which the assignment does not replace
+            image tmp(img.dimensions(), img._align_in_bytes, _alloc);
+            copy_pixels(img._view, tmp._view);
             swap(tmp);
         }
         return *this;
